@@ -131,3 +131,103 @@ theorem pendingInflow_nonneg (j : Nat) (ts : List AThread) : 0 ≤ pendingInflow
   exact inflow_nonneg j a
 
 end Operon.AtpConc
+
+namespace Operon.AtpConc
+open Operon.Lock Operon.Atp
+
+/-! ### explicit traces: which thread ran which action, in which order -/
+
+/-- `ActRun cls c tr c'`: from `c`, running the actions of `tr` atomically in that order (each entry names the
+    thread whose next action it is) reaches `c'`. -/
+inductive ActRun (cls : Classifier) : ACfg → List (Nat × Act) → ACfg → Prop
+  | nil (c) : ActRun cls c [] c
+  | snoc {c st pre post a as l tr} :
+      ActRun cls c tr ⟨st, pre ++ ⟨a :: as, l⟩ :: post⟩ →
+      ActRun cls c (tr ++ [(pre.length, a)])
+        ⟨upd1 st a.lock (body cls a l (st a.lock)).2, pre ++ ⟨as, (body cls a l (st a.lock)).1⟩ :: post⟩
+
+theorem actstar_run (cls : Classifier) (c c' : ACfg) (h : Star (ActStep cls) c c') : ∃ tr, ActRun cls c tr c' := by
+  induction h with
+  | refl => exact ⟨[], ActRun.nil c⟩
+  | tail _ hstep ih =>
+    obtain ⟨tr, htr⟩ := ih
+    cases hstep with
+    | @run st pre post a as l => exact ⟨tr ++ [(pre.length, a)], ActRun.snoc htr⟩
+
+/-- the actions thread `t` ran, in order -/
+def proj (t : Nat) (tr : List (Nat × Act)) : List Act := (tr.filter (fun e => e.1 == t)).map (·.2)
+
+theorem proj_append (t : Nat) (a b : List (Nat × Act)) : proj t (a ++ b) = proj t a ++ proj t b := by
+  simp [proj, List.filter_append]
+
+def todoAt (c : ACfg) (t : Nat) : List Act := match c.threads[t]? with | some x => x.todo | none => []
+def locAt (c : ACfg) (t : Nat) : Loc := match c.threads[t]? with | some x => x.loc | none => {}
+
+theorem getElem?_mid {α : Type} (pre post : List α) (x : α) (t : Nat) :
+    (pre ++ x :: post)[t]? = if t = pre.length then some x else
+      (if t < pre.length then pre[t]? else post[t - pre.length - 1]?) := by
+  by_cases h1 : t < pre.length
+  · have : t ≠ pre.length := by omega
+    simp [this, h1, List.getElem?_append_left h1]
+  · by_cases h2 : t = pre.length
+    · subst h2; simp
+    · have h3 : pre.length ≤ t := by omega
+      rw [List.getElem?_append_right h3]
+      have : t - pre.length = (t - pre.length - 1) + 1 := by omega
+      rw [this, List.getElem?_cons_succ]
+      simp [h2, h1]
+
+/-- **Every run is an interleaving that loses nothing.**  For every thread, the actions it ran (in order) followed by
+    the actions it still has to run are exactly the actions it started with; the number of threads never changes. -/
+theorem actrun_proj (cls : Classifier) (c c' : ACfg) (tr : List (Nat × Act)) (h : ActRun cls c tr c') :
+    c'.threads.length = c.threads.length ∧ ∀ t, proj t tr ++ todoAt c' t = todoAt c t := by
+  induction h with
+  | nil => exact ⟨rfl, fun t => by simp [proj]⟩
+  | @snoc st pre post a as l tr _ ih =>
+    obtain ⟨hlen, hproj⟩ := ih
+    refine ⟨by simpa using hlen, ?_⟩
+    intro t
+    have h0 := hproj t
+    rw [proj_append]
+    by_cases ht : t = pre.length
+    · subst ht
+      simp only [todoAt, getElem?_mid, if_true] at h0 ⊢
+      simp only [proj, List.filter_cons, beq_self_eq_true, if_true, List.filter_nil, List.map_cons, List.map_nil]
+      rw [← h0]; simp [proj]
+    · have hne : ((pre.length, a).1 == t) = false := by simp; exact fun h => ht h.symm
+      simp only [todoAt, getElem?_mid, ht, if_false] at h0 ⊢
+      simp only [proj, List.filter_cons, hne, List.filter_nil, List.map_nil, List.append_nil] at *
+      simpa [proj] using h0
+
+/-- the shared stores and every thread's local state after a run are those of the sequential reference `runTrace` -/
+theorem actrun_runTrace (cls : Classifier) (c c' : ACfg) (tr : List (Nat × Act)) (h : ActRun cls c tr c') :
+    let w := runTrace cls ⟨c.st, locAt c⟩ tr
+    c'.st = w.st ∧ ∀ t, t < c'.threads.length → locAt c' t = w.locs t := by
+  induction h with
+  | nil => exact ⟨rfl, fun t _ => rfl⟩
+  | @snoc st pre post a as l tr hrun ih =>
+    obtain ⟨hst, hloc⟩ := ih
+    have hrt : ∀ (w : World) (xs : List (Nat × Act)) (e : Nat × Act),
+        runTrace cls w (xs ++ [e]) = applyAct cls (runTrace cls w xs) e.1 e.2 := by
+      intro w xs
+      induction xs generalizing w with
+      | nil => intro e; rfl
+      | cons x xs ihx => intro e; obtain ⟨t0, a0⟩ := x; simp only [List.cons_append, runTrace]; exact ihx _ e
+    simp only [hrt]
+    simp only at hst hloc
+    have hl : locAt ⟨st, pre ++ ⟨a :: as, l⟩ :: post⟩ pre.length = l := by
+      simp [locAt]
+    have hmid := hloc pre.length (by simp)
+    rw [hl] at hmid
+    constructor
+    · simp only [applyAct, ← hst, ← hmid]
+    · intro t ht
+      simp only [applyAct, ← hst, ← hmid]
+      by_cases htt : t = pre.length
+      · subst htt; simp [locAt]
+      · have := hloc t (by simpa using ht)
+        simp only [htt, if_false]
+        rw [← this]
+        simp only [locAt, getElem?_mid, htt, if_false]
+
+end Operon.AtpConc
